@@ -491,6 +491,27 @@ def gen_pipeline_case(rng, idx):
             if i is not None:
                 cfg["interpolated_disparity"] = i
         steps.append([name, cfg])
+    if idx % 6 == 5:
+        # a scene made of two fronto-parallel planes (an occluded band between them) that goes through SEVERAL filling
+        # validation steps: the pixels one validation filled are judged, and possibly flagged and filled, again
+        rows, cols = rng.randrange(6, 10), rng.randrange(16, 26)
+        s1, s2 = rng.choice([(-2, 1), (2, -1), (-1, 2), (1, -2)])
+        cut = cols // 2 + rng.randrange(-2, 3)
+        base = [[rng.randrange(0, 60) for _ in range(cols + 12)] for _ in range(rows)]
+        left = [[base[r][c + 6] for c in range(cols)] for r in range(rows)]
+        right = [[base[r][c + 6 - (s1 if c < cut else s2)] for c in range(cols)] for r in range(rows)]
+        w = rng.choice([1, 3])
+        disp = [-3, 3]
+        ml = mr = None
+        steps = [["matching_cost", {"matching_cost_method": rng.choice(["sad", "census"]) if w == 3 else "sad",
+                                    "window_size": w, "subpix": 1}],
+                 ["disparity", {"disparity_method": "wta", "invalid_disparity": rng.choice([-9999, "NaN"])}]]
+        for k in range(rng.choice([2, 2, 3])):
+            steps.append(["validation" if k == 0 else f"validation.{k}",
+                          {"validation_method": "cross_checking_accurate", "cross_checking_threshold": rng.choice([0, 1]),
+                           "interpolated_disparity": rng.choice(["mc-cnn", "sgm"])}])
+            if rng.random() < 0.3:
+                steps.append(["filter" if k == 0 else f"filter.{k}", {"filter_method": "median", "filter_size": 3}])
     return {"rows": rows, "cols": cols, "w": w, "left": left, "right": right, "mask_left": ml, "mask_right": mr,
             "disp": disp, "steps": steps, "id": idx}
 
@@ -628,6 +649,14 @@ def part_b(ctx, model):
                                       f"pixel ({i},{j}) from {int(old[i, j])} to {int(new[i, j])}", replay)
                     prev[side] = new
                     continue
+                # "raising one criterion never alters another bit": what an earlier step recorded as filled
+                # (bits 4 and 5) stays recorded, whatever a later step - a second filling validation included - raises
+                cleared = old & (16 | 32) & ~new
+                if np.any(cleared != 0):
+                    i, j = map(int, np.argwhere(cleared != 0)[0])
+                    ctx.violation("filled_bit_cleared_by_" + kind,
+                                  f"pipeline {names}: {name} changed the {side} flag of pixel ({i},{j}) from {int(old[i, j])} "
+                                  f"to {int(new[i, j])}: the pixel was filled by an earlier step and no longer says so", replay)
                 own = step_own(kind, cfgs[name])
                 foreign = (old ^ new) & ~own
                 if np.any(foreign != 0):
